@@ -15,8 +15,8 @@ DRIVER = 'DeepModel/Driver/C13.lean'
 BUDGET = {'quick': 700, 'thorough': 8000}
 RULE = ('op sequences (1..15 ops, thorough ..40): register (3 locations only, so most registrations share file+line '
         'with another; unique watch as the distinguishing tag; varied args; 5% with an unknown stage), unregister (live handle, already '
-        'unregistered handle, never issued handle), service update through LongPoll.poll against a scripted fake '
-        'channel (0..3 tracepoints on the same locations), apply tasks run one at a time in a random order (35% of cases: '
+        'unregistered handle, never issued handle), service answers through LongPoll.poll against a scripted fake '
+        'channel (UPDATE with 0..3 tracepoints on the same locations, NO_CHANGE; ts_nanos arbitrary, not monotone), apply tasks run one at a time in a random order (35% of cases: '
         'split into their regions with register/unregister in between), usually drained at the end. Non-trivial = an unregister removes a registration while another live registration shares '
         'its file and line. Distinct = distinct canonical JSON of the case.')
 TRUSTED = ['uuid4 handles are unique (modelled as fresh naturals)',
@@ -42,8 +42,10 @@ def gen_case(rng, tier):
                 s.unregister(s.ref.nreg + rng.randint(0, 2))         # never issued
             else:
                 s.unregister()                                        # live or already unregistered
-        elif r < 0.72:
+        elif r < 0.70:
             s.update()
+        elif r < 0.74:
+            s.nochange()
         elif split and rng.random() < 0.6:
             s.read() if rng.random() < 0.5 else (s.advance() or s.start())
         elif not s.apply():
@@ -72,6 +74,11 @@ def corpus():
         {'kind': 'seq', 'ops': [reg('w1'), {'op': 'poll', 'nc': False, 'rt': 1, 'ts': 5, 'hash': 'h1', 'tps': [
             {'path': 'a.py', 'line': 10, 'tag': 's1', 'args': {}}]}, ap(1), ap(0),
             {'op': 'unregister', 'handle': 0}, ap(0)]},
+        # the poll time stamp goes backwards, then a registration and its removal
+        {'kind': 'seq', 'ops': [{'op': 'poll', 'nc': False, 'rt': 1, 'ts': 1000, 'hash': 'h1', 'tps': [
+            {'path': 'a.py', 'line': 10, 'tag': 's1', 'args': {}}]}, ap(0),
+            {'op': 'poll', 'nc': True, 'rt': 0, 'ts': 5, 'hash': '', 'tps': []},
+            reg('w1'), ap(0), {'op': 'unregister', 'handle': 0}, ap(0)]},
     ]
 
 
